@@ -50,6 +50,11 @@ func verifSchemaSA() *schema.BodySchema {
 				schema.List{Elem: schema.Reference{OfType: cty.String}},
 				schema.List{Elem: schema.Reference{OfType: cty.Number}},
 			}),
+			"askip": verifOpt(schema.OneOf{
+				schema.AnyExpression{OfType: cty.List(cty.String), SkipLiteralComplexTypes: true},
+				schema.List{Elem: schema.Reference{OfType: cty.String}},
+			}),
+			"hooked": {Constraint: schema.LiteralType{Type: cty.String}, IsOptional: true, CompletionHooks: lang.CompletionHooks{{Name: "verifhook"}}},
 			"astr":  verifOpt(schema.AnyExpression{OfType: cty.String}),
 			"anum":  verifOpt(schema.AnyExpression{OfType: cty.Number}),
 			"abool": verifOpt(schema.AnyExpression{OfType: cty.Bool}),
@@ -103,6 +108,7 @@ func verifFunctions() map[string]schema.FunctionSignature {
 		"f0": {ReturnType: cty.String, Description: "no params"},
 		"f1": {ReturnType: cty.String, Params: []function.Parameter{{Name: "a", Type: cty.String}}},
 		"fobj": {ReturnType: cty.Object(map[string]cty.Type{"a": cty.String}), Params: []function.Parameter{{Name: "a", Type: cty.String}}},
+		"fobk": {ReturnType: cty.Object(map[string]cty.Type{"b": cty.Number}), Params: []function.Parameter{{Name: "a", Type: cty.String}}},
 		"fsb":  {ReturnType: cty.Bool, Params: []function.Parameter{{Name: "s", Type: cty.String}, {Name: "b", Type: cty.Bool}}},
 		"f2": {ReturnType: cty.Number, Params: []function.Parameter{{Name: "a", Type: cty.Number}, {Name: "b", Type: cty.Number}}},
 		"fv": {ReturnType: cty.String, Params: []function.Parameter{{Name: "a", Type: cty.String}}, VarParam: &function.Parameter{Name: "rest", Type: cty.String}},
@@ -152,7 +158,12 @@ func verifResDepEntries() []verifDepEntry {
 			},
 			Blocks: map[string]*schema.BlockSchema{
 				"plain": {Body: &schema.BodySchema{Attributes: map[string]*schema.AttributeSchema{"v": {Constraint: schema.AnyExpression{OfType: cty.Number}, IsOptional: true}}}},
-				"rule": {Body: &schema.BodySchema{Attributes: map[string]*schema.AttributeSchema{"port": {Constraint: num, IsOptional: true}},
+				"rule": {Type: schema.BlockTypeList, Body: &schema.BodySchema{
+					Attributes: map[string]*schema.AttributeSchema{"port": {Constraint: num, IsOptional: true}, "proto": {Constraint: str, IsOptional: true}, "prio": {Constraint: num, IsOptional: true}},
+					Blocks: map[string]*schema.BlockSchema{"action": {Body: &schema.BodySchema{
+						Attributes: map[string]*schema.AttributeSchema{"kind": {Constraint: str, IsOptional: true}},
+						Blocks:     map[string]*schema.BlockSchema{"step": {Body: &schema.BodySchema{Attributes: map[string]*schema.AttributeSchema{"n": {Constraint: num, IsOptional: true}}}}},
+					}}},
 					Extensions: &schema.BodyExtensions{SelfRefs: true}}, MaxItems: 2},
 			},
 			DocsLink: &schema.DocsLink{URL: "https://example.com/aws"},
@@ -225,6 +236,33 @@ func verifModDepEntries() []verifDepEntry {
 	}
 }
 
+func verifEmptymapsDepEntries() []verifDepEntry {
+	return []verifDepEntry{
+		{schema.DependencyKeys{Labels: []schema.LabelDependent{{Index: 0, Value: "a"}}}, &schema.BodySchema{
+			Attributes: map[string]*schema.AttributeSchema{"ami": {Constraint: schema.LiteralType{Type: cty.String}, IsOptional: true, Description: lang.PlainText("only for a")}},
+			Blocks:     map[string]*schema.BlockSchema{"disk": {Body: &schema.BodySchema{}}},
+		}},
+	}
+}
+
+func verifDresDepEntries() []verifDepEntry {
+	return []verifDepEntry{
+		{schema.DependencyKeys{Labels: []schema.LabelDependent{{Index: 0, Value: "aws"}}}, &schema.BodySchema{
+			Attributes: map[string]*schema.AttributeSchema{"lookup": {Constraint: schema.LiteralType{Type: cty.String}, IsOptional: true}, "found": {Constraint: schema.LiteralType{Type: cty.Bool}, IsOptional: true}},
+		}},
+	}
+}
+
+func verifLkDepEntries() []verifDepEntry {
+	return []verifDepEntry{
+		{schema.DependencyKeys{Labels: []schema.LabelDependent{{Index: 1, Value: "ssh"}}}, &schema.BodySchema{
+			Attributes: map[string]*schema.AttributeSchema{"host": {Constraint: schema.LiteralType{Type: cty.String}, IsOptional: true}},
+			DocsLink:   &schema.DocsLink{URL: "https://example.com/lk/ssh"},
+			Detail:     "ssh kind",
+		}},
+	}
+}
+
 func verifFlaggedDepEntries() []verifDepEntry {
 	return []verifDepEntry{
 		{schema.DependencyKeys{Attributes: []schema.AttributeDependent{{Name: "on", Expr: schema.ExpressionValue{Static: cty.True}}}}, &schema.BodySchema{
@@ -247,6 +285,12 @@ func verifDepEntriesOf(blockType string) []verifDepEntry {
 		return verifModDepEntries()
 	case "flagged":
 		return verifFlaggedDepEntries()
+	case "lk":
+		return verifLkDepEntries()
+	case "dres":
+		return verifDresDepEntries()
+	case "emptymaps":
+		return verifEmptymapsDepEntries()
 	}
 	return nil
 }
@@ -306,6 +350,20 @@ func verifSchemaSB() *schema.BodySchema {
 					Blocks: map[string]*schema.BlockSchema{"lifecycle": {Body: &schema.BodySchema{Attributes: map[string]*schema.AttributeSchema{"keep": {Constraint: schema.LiteralType{Type: cty.Bool}, IsOptional: true}}}}}},
 				DependentBody: verifDepMap(verifBeDepEntries()),
 			},
+			// a second block type whose dependent bodies are data, keyed like "res" but with other bodies
+			"dres": {
+				Labels: []*schema.LabelSchema{{Name: "type", IsDepKey: true}, {Name: "name"}},
+				Address: &schema.BlockAddrSchema{Steps: schema.Address{schema.StaticStep{Name: "dres"}, schema.LabelStep{Index: 0}, schema.LabelStep{Index: 1}},
+					ScopeId: lang.ScopeId("dres"), DependentBodyAsData: true, InferDependentBody: true},
+				Body:          &schema.BodySchema{Attributes: map[string]*schema.AttributeSchema{"common": {Constraint: str, IsOptional: true}}},
+				DependentBody: verifDepMap(verifDresDepEntries()),
+			},
+			// the key label is the second one
+			"lk": {
+				Labels:        []*schema.LabelSchema{{Name: "name"}, {Name: "kind", IsDepKey: true, Completable: true}},
+				Body:          &schema.BodySchema{Attributes: map[string]*schema.AttributeSchema{"opt": {Constraint: num, IsOptional: true}}},
+				DependentBody: verifDepMap(verifLkDepEntries()),
+			},
 			// a key attribute with a boolean value
 			"flagged": {
 				Body:          &schema.BodySchema{Attributes: map[string]*schema.AttributeSchema{"on": {Constraint: schema.LiteralType{Type: cty.Bool}, IsOptional: true, IsDepKey: true}}},
@@ -359,7 +417,9 @@ func verifSchemaSB() *schema.BodySchema {
 					Attributes: map[string]*schema.AttributeSchema{
 						// also addressable on its own: a position inside it belongs to a nested target of the block and to this one
 						"id": {Constraint: str, IsOptional: true, Address: &schema.AttributeAddrSchema{Steps: schema.Address{schema.StaticStep{Name: "zed"}, schema.AttrNameStep{}}, AsReference: true, ScopeId: lang.ScopeId("zed")}},
-						"n":  {Constraint: num, IsOptional: true}},
+						"n":  {Constraint: num, IsOptional: true},
+						// computed only: not offered, but decoded where written
+						"arn": {Constraint: schema.AnyExpression{OfType: cty.String}, IsComputed: true}},
 					Blocks: map[string]*schema.BlockSchema{
 						"lst": {Type: schema.BlockTypeList, Body: &schema.BodySchema{Attributes: map[string]*schema.AttributeSchema{"v": {Constraint: str, IsOptional: true}}}},
 						"obj": {Type: schema.BlockTypeObject, Body: &schema.BodySchema{Attributes: map[string]*schema.AttributeSchema{"w": {Constraint: num, IsOptional: true}}}},
@@ -394,6 +454,12 @@ func verifSchemaSH() *schema.BodySchema {
 				},
 			},
 			"onlybody": {Body: &schema.BodySchema{}},
+			// static body with initialised but empty maps
+			"emptymaps": {
+				Labels: []*schema.LabelSchema{{Name: "type", IsDepKey: true}},
+				Body:   &schema.BodySchema{Attributes: map[string]*schema.AttributeSchema{}, Blocks: map[string]*schema.BlockSchema{}},
+				DependentBody: verifDepMap(verifEmptymapsDepEntries()),
+			},
 		},
 	}
 }
@@ -472,6 +538,8 @@ func verifSeedList() []verifSeed {
 		{"unknown-attr", "zzz = 1\nstr = \"a\"\n", 0},
 		{"unknown-blk", "qqq \"x\" {\n  a = 1\n}\n", 0},
 		{"prefix", "s\n", 0},
+		{"prefix-long", "str\n", 0},
+		{"prefix-second-line", "num = 1\nst\n", 0},
 		{"empty", "\n", 0},
 		{"multibyte", "str = \"héllo wörld ✓\"\n", 0},
 		{"heredoc", "str = <<EOT\nhello\nEOT\n", 0},
@@ -520,6 +588,7 @@ func verifSeedList() []verifSeed {
 		{"nobodylbl", "nobodylbl \"a\" {\n  y = 2\n}\n", 3},
 		{"dyn-a", "dyn \"a\" {\n  inner {\n    z = 1\n  }\n}\n", 3},
 		{"dyn-b", "dyn \"b\" {\n}\n", 3},
+		{"emptymaps", "emptymaps \"a\" {\n  ami = \"x\"\n  disk {\n  }\n}\nemptymaps \"b\" {\n  ami = \"y\"\n}\n", 3},
 		{"onlybody", "onlybody {\n  q = 1\n  r {\n  }\n}\n", 3},
 		// SB
 		{"res-aws", "res \"aws\" \"a\" {\n  marker = \"x\"\n  size = 1\n}\n", 2},
@@ -577,6 +646,25 @@ func verifSeedList() []verifSeed {
 		{"flagged-on", "flagged {\n  on = true\n  extra = \"x\"\n}\n", 2},
 		{"flagged-off", "flagged {\n  on = false\n  extra = \"x\"\n}\n", 2},
 		{"data-lst-separated", "data \"d\" {\n  lst {\n    v = \"a\"\n  }\n  id = \"i\"\n  lst {\n    v = \"b\"\n  }\n  lst {\n    v = \"c\"\n  }\n}\n", 2},
+		{"locals-keyword-keys", "locals {\n  o = { true = \"x\", false = \"y\", null = \"z\", \"q\" = [ 1, { k = 2 } ] }\n}\n", 2},
+		{"mod-two-refs", "mod \"m\" {\n  source = \"./m\"\n  input = var.foo\n}\nmod \"m\" {\n  source = \"./n\"\n  other = var.foo\n}\n", 2},
+		{"valid-res-dynamic-nested", "res \"aws\" \"a\" {\n  size = 1\n  dynamic \"rule\" {\n    for_each = var.x\n    content {\n      port = 1\n      dynamic \"action\" {\n        for_each = var.x\n        content {\n          kind = \"k\"\n        }\n      }\n    }\n  }\n}\n", 2},
+		{"valid-res-rule-dynamic-deep", "res \"aws\" \"a\" {\n  size = 1\n  rule {\n    dynamic \"action\" {\n      for_each = var.x\n      content {\n        kind = \"k\"\n        dynamic \"step\" {\n          for_each = var.x\n          content {\n            n = 1\n          }\n        }\n      }\n    }\n  }\n}\n", 2},
+		{"valid-res-dynamic-three", "res \"aws\" \"a\" {\n  size = 1\n  dynamic \"rule\" {\n    for_each = var.x\n    content {\n      dynamic \"action\" {\n        for_each = var.x\n        content {\n          dynamic \"step\" {\n            for_each = var.x\n            content {\n              n = 1\n            }\n          }\n        }\n      }\n    }\n  }\n}\n", 2},
+		{"valid-res-rule-action", "res \"aws\" \"a\" {\n  size = 1\n  rule {\n    port = 1\n    proto = \"tcp\"\n    action {\n      kind = \"k\"\n    }\n  }\n}\n", 2},
+		{"res-self-rule-two", "res \"aws\" \"a\" {\n  size = 1\n  rule {\n    port = 80\n    proto = \"tcp\"\n    prio = self.size\n  }\n  rule {\n    port = 81\n  }\n}\n", 2},
+		{"lk-ssh", "lk \"n\" \"ssh\" {\n  host = \"h\"\n  opt = 1\n}\n", 2},
+		{"lk-other", "lk \"n\" \"zz\" {\n  opt = 1\n}\n", 2},
+		{"askip-mixed", "askip = [ \"s\", f1( \"X\" ), var.foo ]\n", 0},
+		{"call-nested-excess", "astr = f1( fobj( \"a\",  ) )\n", 0},
+		{"hooked-gap", "hooked =  \"fo\"\n", 0},
+		{"hooked-empty", "hooked = \n", 0},
+		{"attr-as-block", "str {\n}\nnolabel = 1\n", 0},
+		{"res-attr-as-block", "res \"aws\" \"a\" {\n  size {\n  }\n  rule = 1\n}\n", 2},
+		{"res-and-dres", "res \"aws\" \"a\" {\n  size = 1\n}\ndres \"aws\" \"a\" {\n  lookup = \"x\"\n}\n", 2},
+		{"dres-and-res", "dres \"aws\" \"a\" {\n  lookup = \"x\"\n}\nres \"aws\" \"a\" {\n  size = 1\n}\n", 2},
+		{"data-arn", "data \"d\" {\n  arn = var.foo\n  id = \"i\"\n}\n", 2},
+		{"aobj-func-k", "aobj = fob\n", 0},
 		{"mod-dep", "mod \"m\" {\n  source = \"./m\"\n  input = \"i\"\n}\n", 2},
 		{"mod-nodep", "mod \"m\" {\n  source = \"./other\"\n  input = \"i\"\n}\n", 2},
 		{"variable", "variable \"v\" {\n  type = list(string)\n  default = [ \"a\" ]\n}\n", 2},
